@@ -38,8 +38,11 @@ HEX = '0123456789abcdefABCDEF'
 
 
 def unescape(text):
-    """Backslash-escape processing, written independently of the codec the assembler uses.
-    Returns the text, or None when the input is outside the documented set (see Spec/Data.v)."""
+    """Backslash-escape processing = the escape sequences of Python string literals, written independently of the codec
+    the assembler uses (and NOT by calling asm.decode_escapes).  An unrecognised escape -- a backslash in front of any
+    character that starts no escape sequence, e.g. \\q, \\8 or a backslash in front of a non-ASCII character -- is left in
+    the string unchanged (language reference 2.4.1).  Returns the text, or None = not judged: malformed escape (trailing
+    backslash, truncated \\x \\u \\U, \\U above 10ffff) or \\N{name} (see Spec/Escapes.v denote)."""
     out, i, n = [], 0, len(text)
     while i < n:
         c = text[i]
@@ -64,9 +67,26 @@ def unescape(text):
             if v > 0x10ffff:
                 return None
             out.append(chr(v)); i += 2 + k
-        else:
+        elif e == 'N':
             return None
+        else:
+            out.append('\\'); out.append(e); i += 2
     return ''.join(out)
+
+
+def literal_value(text):
+    """The text written as a Python string literal and evaluated by the interpreter itself (a third opinion on the escape
+    semantics); None where the text cannot simply be put between quotes, is malformed, or holds a lone surrogate."""
+    if '"' in text or '\n' in text or '\r' in text or '\\N' in text or len(text) - len(text.rstrip('\\')) & 1:
+        return None
+    import ast
+    import warnings
+    try:
+        with warnings.catch_warnings():
+            warnings.simplefilter('ignore')
+            return ast.literal_eval('"' + text + '"').encode('utf-8')
+    except (SyntaxError, ValueError, UnicodeEncodeError):
+        return None
 
 
 def string_expected(text):
@@ -82,7 +102,7 @@ def string_expected(text):
 
 # ------------------------------------------------------------------------------------------ Spec oracle (Coq)
 SPEC_HEADER = '''From Coq Require Import ZArith List String.
-From BB Require Import Spec.Utf8 Spec.Data.
+From BB Require Import Spec.Utf8 Spec.Data Spec.Escapes.
 Import ListNotations.
 Open Scope Z_scope.
 Open Scope string_scope.
@@ -95,17 +115,19 @@ def zl(xs):
     return '[' + '; '.join(pipeline.cz(x) for x in xs) + ']'
 
 
-def spec_eval(terms, shard=400):
+def spec_eval(terms, shard=400, header=None, parse=None):
     """terms: Gallina terms of type option (list Z) / option (option (list Z)).  Returns the printed values
     parsed into None / bytes / ('some', None|bytes)."""
     if not terms:
         return []
+    header = header or SPEC_HEADER
+    parse = parse or parse_opt
     workdir = tempfile.mkdtemp(prefix='bbspecd')
     answers = []
     try:
         for s in range(0, len(terms), shard):
             part = terms[s:s + shard]
-            text = SPEC_HEADER + ''.join('Eval vm_compute in ({}).\n'.format(t) for t in part)
+            text = header + ''.join('Eval vm_compute in ({}).\n'.format(t) for t in part)
             _, rc, out = pipeline._run_shard((s // shard, text, workdir))
             vals = re.findall(r'^\s*= (.*?)\n\s*: option', out, re.M | re.S)
             if rc != 0 or len(vals) != len(part):
@@ -113,7 +135,7 @@ def spec_eval(terms, shard=400):
                 with open(os.path.join(pipeline.VERIF, 'build', 'logs', 'spec_data_error.log'), 'w') as f:
                     f.write(out[-20000:])
                 raise RuntimeError('Spec evaluation failed (rc={}, {} answers for {} terms)'.format(rc, len(vals), len(part)))
-            answers += [parse_opt(v) for v in vals]
+            answers += [parse(v) for v in vals]
         return answers
     finally:
         shutil.rmtree(workdir, ignore_errors=True)
@@ -258,6 +280,12 @@ ESCAPES = ['\\\\', "\\'", '\\"', '\\a', '\\b', '\\f', '\\n', '\\r', '\\t', '\\v'
            '\\18', '\\x41', '\\x7f', '\\x80', '\\xe9', '\\xff', '\\u0041', '\\u00e9', '\\u20ac', '\\uffff', '\\U0001f600',
            '\\U0010ffff', '\\U00000041', '\\\\n', '\\x4a\\x4B']
 ASCII = [chr(c) for c in range(32, 127) if chr(c) != '\\']
+# unrecognised escapes: the backslash stays (D27: in front of a character above U+00FF the Latin-1 detour of decode_escapes lost it)
+WIDE = ['\u20ac', '\U0001f600', '\u0100', '\u4e2d', '\uffff', '\U0010ffff']
+UNKNOWN = (['\\' + w for w in WIDE] + ['a\\\\' + w for w in WIDE[:2]] + ['\\\\\\' + w for w in WIDE[:2]] +
+           ['\\q', '\\8', '\\9', '\\ ', '\\z\\Z', '\\\xe9', '\\\xff', 'a\\\xe9b',
+            '\\n\\\u20ac\\x41', '\\\u20ac\\u20ac', '\\u20ac\\\u20ac', '\xe9\\\u0100', '\\101\\\U0001f600\\0', '\\\u20ac\\\u20ac',
+            '\\t\\q\\\u4e2d\\\\'])
 
 
 def rnd_char(rng, cls):
@@ -296,21 +324,31 @@ def string_texts(ctx):
     for cls in ('latin1', 'bmp', 'astral'):
         for _ in range(n):
             add(cls, ''.join(rnd_char(rng, rng.choice([cls, 'ascii'])) for _ in range(rng.randrange(1, 16))))
+    for t in UNKNOWN:
+        add('unknown-escape', t); add('unknown-escape', 'x' + t + 'y')
+    for _ in range(n):
+        add('unknown-escape', ''.join(rng.choice([rng.choice(ESCAPES), '\\' + rnd_char(rng, rng.choice(['bmp', 'astral', 'latin1'])),
+                                                  '\\' + rng.choice('qzZ89 ,#'), rnd_char(rng, rng.choice(['ascii', 'bmp']))])
+                                      for _ in range(rng.randrange(1, 8))))
     for _ in range(n):
         add('mixed', ''.join(rng.choice([rng.choice(ESCAPES), rnd_char(rng, rng.choice(['ascii', 'latin1', 'bmp', 'astral']))])
                              for _ in range(rng.randrange(2, 14))))
     # make sure the non-ASCII classes really are non-ASCII
-    return [(c, t) for c, t in dict.fromkeys(texts) if c in ('ascii', 'escape', 'mixed') or not t.isascii()]
+    return [(c, t) for c, t in dict.fromkeys(texts) if c in ('ascii', 'escape', 'mixed', 'unknown-escape') or not t.isascii()]
 
 
 def check_strings(ctx, asm):
     texts = string_texts(ctx)
     exps = [string_expected(t) for _, t in texts]
-    spec = spec_eval(['data_string {}'.format(zl([ord(c) for c in t])) for _, t in texts])
+    spec = spec_eval(['Escapes.string_bytes {}'.format(zl([ord(c) for c in t])) for _, t in texts])
     for (cls, t), exp, sp in zip(texts, exps, spec):
         if sp != exp:
-            ctx.corr('Spec.Data.data_string vs the Python oracle', {'text': t}, exp.hex() if exp is not None else None,
+            ctx.corr('Spec.Escapes.string_bytes vs the Python oracle', {'text': t}, exp.hex() if exp is not None else None,
                      sp.hex() if sp is not None else None)
+            continue
+        lit = literal_value(t)
+        if lit is not None and exp is not None and lit != exp:
+            ctx.corr('the Python oracle vs the value of the string LITERAL', {'text': t}, lit.hex(), exp.hex())
             continue
         if exp is None:
             ctx.count('string-not-judged')
@@ -324,6 +362,8 @@ def check_strings(ctx, asm):
         inp = {'kind': 'string', 'source': src, 'text': t, 'class': cls}
         widest = max([ord(c) for c in t] + [0])
         m = {'kind': 'string', 'class': 'ascii' if widest < 128 else 'non-ascii'}
+        if re.search(r'(?<!\\)(?:\\\\)*\\[^\x00-\xff]', t):
+            m['cause'] = 'backslash-before-non-latin1'
         if st != 'ok':
             ctx.cex('{!r} is refused ({})'.format(src, got), inp, got, exp.hex(), m)
         elif got != exp:
@@ -335,6 +375,74 @@ def check_strings(ctx, asm):
                 ctx.cex('label after {!r} is not at {}'.format(src, len(exp)), dict(inp, source=src + '\nend:\ndw end'),
                         got2.hex() if st2 == 'ok' else got2, len(exp), {'kind': 'string-size'})
     ctx.sample({'source': 'string café \\u20ac', 'expected': string_expected('café \\u20ac').hex()})
+
+
+# ------------------------------------------------------------------------------------------ decode_escapes: model vs code
+# The lexer model (Model/Lexer.v) covers ASCII text with the one-character escapes only.  Proofs/StringUnicode.v models the
+# whole expression of asm.decode_escapes on arbitrary text (decode_escapes_x = denote . blr . dbl, on code points) and
+# C10_string_detour_transparent / C10_string_escapes_unicode are ABOUT that model: this is its tie to the code.
+XHEADER = '''From Coq Require Import ZArith List String.
+From BB Require Import Spec.Escapes Proofs.StringUnicode.
+Import ListNotations.
+Open Scope Z_scope.
+Set Printing Width 1000000.
+Set Printing Depth 1000000.
+'''
+MALFORMED = ['\\', 'a\\', '\\\\\\', '\\x', '\\x4', '\\x4g', '\\xg1', '\\u', '\\u12', '\\u123', '\\u123g', '\\U', '\\U0001f60', '\\U00110000',
+             '\\Uffffffff', '\\x4\u20ac', '\\u20a\u20ac', '\\x\\\u20ac', '\\U0001F60\U0001f600', 'ok\\n\\x', '\xe9\\', '\u20ac\\', '\\\u20ac\\']
+XALPHA = ['\\', '\\', '\\', 'n', 't', 'x', 'u', 'U', '0', '1', '7', '8', '9', 'a', 'f', 'A', 'F', 'g', 'q', ' ', '"', "'", '\xe9', '\xff',
+          '\u0100', '\u20ac', '\U0001f600', '\x7f', '{', '}', '2', 'c', '\ud800', '\r', '\x00', '\x85', '\uffff', '\U0010ffff']
+# no line feed: a line never holds one (read_lines splits there), so backslash-newline, which the codec ignores, is not part of
+# Spec/Escapes.v denote
+
+
+def parse_cps(v):
+    v = ' '.join(v.split())
+    if v == 'None':
+        return None
+    m = re.match(r'^Some \[(.*)\]$', v)
+    if not m:
+        raise RuntimeError('unparsable model answer: ' + v[:200])
+    body = m.group(1).strip()
+    return [int(x) for x in body.split(';')] if body else []
+
+
+def escape_texts(ctx):
+    rng = ctx.rng
+    n = 260 if ctx.quick() else 4000
+    texts = ['', 'hello', 'a,b (c) # d', 'caf\xe9 \u20ac \U0001f600', '\ud800', 'x\udfffy']
+    for e in ESCAPES + UNKNOWN + MALFORMED:
+        texts += [e, 'a' + e + 'b', e + e, '\xe9' + e + '\u20ac']
+    for _ in range(n):
+        texts.append(''.join(rng.choice(XALPHA) for _ in range(rng.randrange(0, 12))))
+    for _ in range(n // 4):
+        texts.append(''.join(rng.choice([rng.choice(ESCAPES), rng.choice(UNKNOWN), rnd_char(rng, rng.choice(['ascii', 'latin1', 'bmp', 'astral']))])
+                             for _ in range(rng.randrange(1, 8))))
+    return [t for t in dict.fromkeys(texts) if '\\N' not in t]          # \N{name}: outside the model
+
+
+def real_decode(asm, t):
+    try:
+        return [ord(c) for c in asm.decode_escapes(t)]
+    except UnicodeDecodeError:
+        return None
+
+
+def check_decode_escapes(ctx, asm):
+    if not hasattr(asm, 'decode_escapes'):
+        ctx.unsupported += 1
+        return
+    texts = escape_texts(ctx)
+    model = spec_eval(['decode_escapes_x {}'.format(zl([ord(c) for c in t])) for t in texts], header=XHEADER, parse=parse_cps)
+    ctx.count('decode-escapes-texts', len(texts))
+    for t, mo in zip(texts, model):
+        re_ = real_decode(asm, t)
+        ctx.count('decode-escapes-' + ('malformed' if re_ is None else 'ok'))
+        if re_ != mo:
+            ctx.corr('Proofs.StringUnicode.decode_escapes_x', {'text': t, 'codes': [ord(c) for c in t]}, re_, mo)
+        else:
+            ctx.traces_validated += 1
+    ctx.sample({'text': '\\\u20ac\\x41', 'decode_escapes': real_decode(asm, '\\\u20ac\\x41')})
 
 
 # ------------------------------------------------------------------------------------------ include_bytes
@@ -620,6 +728,7 @@ def explore(ctx):
     correspondence(ctx, asm)
     check_ints(ctx, asm)
     check_strings(ctx, asm)
+    check_decode_escapes(ctx, asm)
     check_include_bytes(ctx, asm)
 
 
